@@ -4,6 +4,7 @@
   observations. Links natively because nothing below it imports Mathlib.
 -/
 import PLV.Model.Proto
+import PLV.Model.LevelFast
 import PLV.Judge
 import PLV.Model.Conc
 import PLV.Model.TextProto
